@@ -74,3 +74,56 @@ def run_shard(args):
                              'msg': f'a layer whose field reads another output of the same layer (Output annotation): {diffs[0][0]}: real {str(diffs[0][1])[:160]}, '
                                     f'reference {str(diffs[0][2])[:160]}'})
     return stats, problems
+
+
+def run_mixin_policy(seed):
+    """a `Mixin` that carries the inheritance policy (`__inherit__` as True / names / a string, `__exclude__`), a private parameter or a field of
+    the Transforms using it: the layer behaves exactly like one that declares the same names in its own body (C02)"""
+    from .paths import use_repo
+    use_repo()
+    rng = random.Random(seed)
+    policy = rng.choice(["__inherit__ = True", "__inherit__ = ('b', 'c')", "__inherit__ = 'b'", "__exclude__ = 'c'", "__exclude__ = ('b', 'c')"])
+    extra = rng.choice(["", "def _k(a):\n        return ('k', a)", "def e(b):\n        return ('e', b)"])
+    own = "def a(a, _k):\n        return ('A', a, _k)" if '_k' in extra else "def a(a):\n        return ('A', a)"
+    src = f'''
+from connectome import Mixin, Source, Transform, meta
+class DS(Source):
+    @meta
+    def ids():
+        return ('i1', 'i2')
+    def a(i):
+        return ('a', i)
+    def b(i):
+        return ('b', i)
+    def c(i):
+        return ('c', i)
+class M(Mixin):
+    {policy}
+    {extra}
+class WithMixin(Transform, M):
+    {own}
+class Own(Transform):
+    {policy}
+    {extra}
+    {own}
+'''
+    ns = {}
+    problems = []
+    try:
+        exec(src, ns)
+
+        def look(layer):
+            p = ns['DS']() >> layer
+            out = {'dir': sorted(n for n in dir(p) if not n.startswith('_'))}
+            for n in ('a', 'b', 'c', 'e'):
+                try:
+                    out[n] = repr(getattr(p, n)('i1'))
+                except Exception as e:
+                    out[n] = 'ERR ' + type(e).__name__
+            return out
+        a, b = look(ns['WithMixin']()), look(ns['Own']())
+        if a != b:
+            problems.append({'policy': policy, 'msg': f'a Transform taking `{policy}`{" and a parameter/field" if extra else ""} from a Mixin: {a}, the same names in its own body: {b}'})
+    except Exception as e:
+        problems.append({'policy': policy, 'msg': f'mixin scenario ({policy}) raised {type(e).__name__}: {str(e)[:150]}'})
+    return problems
